@@ -137,6 +137,7 @@ package pppoe
 //@ func (s *Server) sendPPPPacket
 //@   requires session != nil
 //@   modifies session.BytesOut, session.PacketsOut
+//@   sets pppSent = pppSent + 1
 
 //@ func (s *Server) sendDiscoveryPacket
 //@   modifies nothing
@@ -155,6 +156,8 @@ package pppoe
 
 //@ func (s *Server) handleIPCPConfigAck
 //@   requires session != nil && session.Authenticated
+//@   ghost acctStarts mathint = 0
+//@   ensures acctStarts == 0
 //@   modifies session.State, session.EstablishedAt, session.LastActivity, session.LCPIdentifier
 
 //@ func (s *Server) handleIPPacket
@@ -169,6 +172,22 @@ package pppoe
 //@   requires session != nil
 //@   ghost authAccepted bool = false
 //@   modifies *
+//@   ghost removedID mathint = 0 - 1
+//@   ghost pppRel mathint = 0
+//@   ghost pppRelID string = ""
+// (C16) an authentication failure ends the session through endSession, exactly once: it leaves the
+// session table and the address it may hold (a client that authenticated before and fails now) goes
+// back to the pool (endSession's contract); a success, or a packet that is not answered, ends nothing
+// (a verdict was reached iff the PAP reply was sent: pppSent == 1)
+//@   ghost pppSent mathint = 0
+//@   ghost endCalls mathint = 0
+//@   ensures pppSent == 1 && !authenticated ==> endCalls == 1
+//@   ensures pppSent == 0 ==> endCalls == 0 && removedID == 0 - 1 && pppRel == 0
+//@   ensures pppSent == 1 && authenticated ==> endCalls == 0 && removedID == 0 - 1 && pppRel == 0
+// (C08) no Accounting-Start / Stop is issued by the PPPoE server
+//@   ghost acctStarts mathint = 0
+//@   ghost acctStops mathint = 0
+//@   ensures acctStarts == 0 && acctStops == 0
 //@   ensures session.Authenticated ==> old(session.Authenticated) || old(s.radiusClient) == nil || authAccepted
 //@   ensures session.ClientIP != old(session.ClientIP) ==> session.Authenticated
 
@@ -187,6 +206,9 @@ package pppoe
 // (C05) a session that is removed gave its client address back to the pool, exactly once
 //@   ensures removedID != 0 - 1 && old(s.clientIPPool) != nil ==> pppRel == 1 && pppRelID == old(lastSession.SessionID)
 //@   ensures removedID == 0 - 1 ==> pppRel == 0
+// (C16 / C08) the PPPoE server starts no accounting session, so it must not stop one either
+//@   ghost acctStops mathint = 0
+//@   ensures acctStops == 0
 
 // (C05) LCP Terminate-Request ends the session: its client address goes back to the pool
 //@ func (s *Server) handleLCPTermRequest
@@ -197,12 +219,16 @@ package pppoe
 //@   modifies *
 //@   ensures removedID == old(session.ID)
 //@   ensures old(s.clientIPPool) != nil ==> pppRel == 1 && pppRelID == old(session.SessionID)
+//@   ghost acctStops mathint = 0
+//@   ensures acctStops == 0
 
 // (C05) expiry: cleanupLoop expires sessions through expireSessions, which releases the address
 // of every session of the snapshot that is no longer registered (frame only; the count of
 // releases is not decided, see replays/pppoe_IPPool_broadcast_and_session_end_leak.go)
 //@ func (s *Server) expireSessions
 //@   modifies *
+//@   ghost acctStops mathint = 0
+//@   ensures acctStops == 0
 
 // ---- lcp.go: LCP option-negotiation automaton (C11) ----
 //
@@ -572,6 +598,8 @@ package pppoe
 
 //@ iface IPPoolAllocator.Release(sessionID)
 //@   modifies nothing
+//@   sets pppRel = pppRel + 1
+//@   sets pppRelID = sessionID
 
 // IPCP acknowledges only the address assigned to the session: an IP-Address option that does not carry
 // the assigned address (or any IP-Address option while no address is assigned) puts an entry on the nak
@@ -1036,11 +1064,28 @@ package pppoe
 //@ func (m *SessionManager) RemoveSession
 //@   modifies m.sessions, m.macToSession, m.nextID
 //@   sets removedID = id
+//@   sets wasLive = ite(locked(id in m.sessions), 1, 0)
 //@   ensures dom(m.sessions) == locked(dom(m.sessions))[id := false]
 //@   ensures forall i uint16 :: i in m.sessions ==> m.sessions[i] == locked(m.sessions[i])
 //@   ensures forall k string :: k in m.macToSession ==> locked(k in m.macToSession) && m.macToSession[k] == locked(m.macToSession[k])
 //@   ensures forall k string :: locked(k in m.macToSession) && locked(m.macToSession[k]) != id ==> k in m.macToSession
 //@   ensures forall k string :: locked(k in m.macToSession) && locked(m.macToSession[k]) == id ==> !(k in m.macToSession)
+
+// detach: the session leaves the table (together with the index entry that refers to it) iff it is
+// still the one registered under its id; the result tells the caller whether it was this call that
+// removed it. Nothing else changes.
+//@ func (m *SessionManager) detach
+//@   requires session != nil
+//@   modifies m.sessions, m.macToSession, m.nextID
+//@   sets wasLive = ite(result, 1, 0)
+//@   sets removedID = ite(result, session.ID, removedID)
+//@   ensures result == (locked(session.ID in m.sessions) && locked(m.sessions[session.ID]) == session)
+//@   ensures result ==> dom(m.sessions) == locked(dom(m.sessions))[session.ID := false]
+//@   ensures !result ==> dom(m.sessions) == locked(dom(m.sessions)) && dom(m.macToSession) == locked(dom(m.macToSession))
+//@   ensures forall i uint16 :: i in m.sessions ==> m.sessions[i] == locked(m.sessions[i])
+//@   ensures forall k string :: k in m.macToSession ==> locked(k in m.macToSession) && m.macToSession[k] == locked(m.macToSession[k])
+//@   ensures forall k string :: locked(k in m.macToSession) && locked(m.macToSession[k]) != session.ID ==> k in m.macToSession
+//@   ensures result ==> forall k string :: locked(k in m.macToSession) && locked(m.macToSession[k]) == session.ID ==> !(k in m.macToSession)
 
 // CleanupExpired: only removes; what remains is unchanged, and an index entry disappears only
 // together with the session it refers to.
@@ -1060,3 +1105,163 @@ package pppoe
 //@ func generateMagicNumber
 //@   trusted reads crypto/rand; writes nothing the caller can see
 //@   modifies nothing
+
+// ---- teardown.go / server.go / session.go: ending a PPPoE session releases everything it held (C16; Stop clause of C08) ----
+//
+// What a PPPoE session holds: its entry in the session table and in the MAC index (SessionManager),
+// the client address from the PPPoE pool (IPPool / IPPoolAllocator, keyed by Session.SessionID), the
+// fast-path entry maintained through the updateEBPFMaps callback, and the RADIUS accounting session.
+// pkg/pppoe allocates no NAT block and installs no QoS policy (it does not import pkg/nat or pkg/qos).
+// Every release operation is observed through a ghost counter set by its contract (pppRel, relFastPath,
+// acctStops); wasLive is set by the operation that takes the session out of the table (1: this call
+// removed it, 0: it was not there any more).
+
+//@ type SessionTeardown
+//@   owns mu:
+
+//@ functype SessionTeardown.updateEBPFMaps(session, remove)
+//@   modifies nothing
+//@   sets relFastPath = relFastPath + ite(remove, 1, 0)
+
+//@ functype SessionTeardown.sendPADT(session, tags)
+//@   modifies nothing
+
+//@ functype SessionTeardown.sendLCPTermReq(session, reason)
+//@   modifies nothing
+
+//@ func (s *Session) Duration
+//@   modifies s.State, s.EstablishedAt, s.LastActivity, s.LCPIdentifier
+
+//@ func (t *SessionTeardown) gatherStats
+//@   requires session != nil
+//@   modifies session.State, session.EstablishedAt, session.LastActivity, session.LCPIdentifier
+
+//@ func (t *SessionTeardown) sendAccountingStop
+//@   requires session != nil && t.radiusClient != nil
+//@   modifies rad_sent, t.radiusClient.currentIdx
+//@   ghost acctStops mathint = 0
+//@   ensures acctStops == 1
+//@   sets acctStops = acctStops + 1
+
+//@ func (t *SessionTeardown) cleanup
+//@   requires session != nil
+//@   modifies session.State, session.EstablishedAt, session.LastActivity, session.LCPIdentifier, t.sessions.sessions, t.sessions.macToSession, t.sessions.nextID, rad_sent, t.radiusClient.currentIdx
+//@   ghost pppRel mathint = 0
+//@   ghost relFastPath mathint = 0
+//@   ghost acctStops mathint = 0
+//@   ghost wasLive mathint = 0 - 1
+//@   sets endCalls = endCalls + 1
+// ending a session that is not in the table any more (ended before, or being ended by another path) has no further effect
+//@   ensures wasLive == 0 ==> pppRel == 0 && relFastPath == 0 && acctStops == 0
+// otherwise everything it held is released exactly once
+//@   ensures wasLive != 0 ==> pppRel == ite(old(t.ipPool) != nil && old(session.ClientIP) != nil, 1, 0)
+//@   ensures wasLive != 0 ==> relFastPath == ite(old(t.updateEBPFMaps) != nil, 1, 0)
+//@   ensures wasLive != 0 ==> acctStops == ite(old(t.radiusClient) != nil && old(session.AcctStarted), 1, 0)
+
+// The entry points of the teardown component end the session through cleanup, exactly once, and
+// release nothing themselves.
+//@ func (t *SessionTeardown) HandleClientPADT
+//@   requires session != nil
+//@   modifies session.State, session.EstablishedAt, session.LastActivity, session.LCPIdentifier, t.sessions.sessions, t.sessions.macToSession, t.sessions.nextID, rad_sent, t.radiusClient.currentIdx
+//@   ghost endCalls mathint = 0
+//@   ghost pppRel mathint = 0
+//@   ghost relFastPath mathint = 0
+//@   ghost acctStops mathint = 0
+//@   ensures pppRel == 0 && relFastPath == 0 && acctStops == 0
+//@   ensures old(macstr(session.ClientMAC) == macstr(clientMAC)) ==> endCalls == 1
+//@   ensures old(macstr(session.ClientMAC) != macstr(clientMAC)) ==> endCalls == 0
+
+//@ func (t *SessionTeardown) waitForLCPTermAck
+//@   requires session != nil
+//@   modifies session.State, session.EstablishedAt, session.LastActivity, session.LCPIdentifier
+
+//@ func (t *SessionTeardown) TerminateSession
+//@   requires session != nil
+//@   modifies session.State, session.EstablishedAt, session.LastActivity, session.LCPIdentifier, t.sessions.sessions, t.sessions.macToSession, t.sessions.nextID, rad_sent, t.radiusClient.currentIdx
+//@   ghost endCalls mathint = 0
+//@   ghost pppRel mathint = 0
+//@   ghost relFastPath mathint = 0
+//@   ghost acctStops mathint = 0
+//@   ensures pppRel == 0 && relFastPath == 0 && acctStops == 0
+//@   ensures endCalls == 1
+//@   sets endCalls = endCalls + 1
+
+//@ func (t *SessionTeardown) TerminateByID
+//@   ghost lastSession *Session = nil
+//@   ghost endCalls mathint = 0
+//@   ghost pppRel mathint = 0
+//@   ghost acctStops mathint = 0
+//@   ensures pppRel == 0 && acctStops == 0
+//@   ensures old(t.sessions) != nil && lastSession != nil ==> endCalls == 1
+//@   ensures old(t.sessions) == nil || lastSession == nil ==> endCalls == 0
+
+//@ func (t *SessionTeardown) TerminateByMAC
+//@   ghost lastSession *Session = nil
+//@   ghost endCalls mathint = 0
+//@   ghost pppRel mathint = 0
+//@   ghost acctStops mathint = 0
+//@   ensures pppRel == 0 && acctStops == 0
+//@   ensures old(t.sessions) != nil && lastSession != nil ==> endCalls == 1
+//@   ensures old(t.sessions) == nil || lastSession == nil ==> endCalls == 0
+
+//@ func (t *SessionTeardown) TerminateByUsername
+//@   ghost endCalls mathint = 0
+//@   ghost pppRel mathint = 0
+//@   ghost acctStops mathint = 0
+//@   ensures pppRel == 0 && acctStops == 0
+//@   ensures old(t.sessions) != nil ==> endCalls == count
+
+//@ loop SessionTeardown.TerminateByUsername#1
+//@   invariant 0 <= count && count <= ridx
+//@   invariant endCalls == count
+//@   invariant pppRel == 0 && acctStops == 0
+
+// GetAllSessions: read-only snapshot of the table under the read lock. Assumed, not verified: the lock
+// invariant rev (a quantified statement about the bytes of every session's ClientMAC) cannot be
+// re-established by the engine after the fresh allocation of the result slice.
+//@ func (m *SessionManager) GetAllSessions
+//@   trusted read-only snapshot under RLock; body not verified (engine limit: quantified byte-content invariant across an allocation)
+//@   modifies m.sessions, m.macToSession, m.nextID
+//@   ensures fresh(result) && forall i int :: 0 <= i && i < len(result) ==> result[i] != nil
+//@   sets snapshotLen = len(result)
+
+//@ func (t *SessionTeardown) TerminateAll
+//@   ghost endCalls mathint = 0
+//@   ghost pppRel mathint = 0
+//@   ghost acctStops mathint = 0
+//@   ghost snapshotLen mathint = 0
+//@   ensures pppRel == 0 && acctStops == 0
+//@   ensures endCalls == snapshotLen
+
+//@ loop SessionTeardown.TerminateAll#1
+//@   invariant endCalls == ridx && pppRel == 0 && acctStops == 0
+//@   invariant forall i int :: 0 <= i && i < len(sessions) ==> sessions[i] != nil
+//@   invariant len(sessions) == snapshotLen
+
+// ---- server.go: the termination paths of the PPPoE server (C16) ----
+
+// endSession (authentication failure, shutdown): the session leaves the table and its address goes
+// back to the pool, exactly once; no accounting record is issued (the PPPoE server never starts one).
+//@ func (s *Server) endSession
+//@   requires session != nil
+//@   ghost removedID mathint = 0 - 1
+//@   ghost pppRel mathint = 0
+//@   ghost pppRelID string = ""
+//@   ghost acctStops mathint = 0
+//@   modifies session.State, session.EstablishedAt, session.LastActivity, session.LCPIdentifier, s.clientIPPool.available, s.clientIPPool.allocated, s.sessions.sessions, s.sessions.macToSession, s.sessions.nextID
+//@   ensures removedID == old(session.ID) && acctStops == 0
+//@   ensures old(s.clientIPPool) != nil ==> pppRel == 1 && pppRelID == old(session.SessionID)
+//@   ensures old(s.clientIPPool) == nil ==> pppRel == 0
+//@   sets endCalls = endCalls + 1
+//@   sets removedID = session.ID
+//@   sets pppRel = pppRel + ite(s.clientIPPool != nil, 1, 0)
+//@   sets pppRelID = ite(s.clientIPPool != nil, session.SessionID, pppRelID)
+
+// Shutdown ends every session that is in the table when Stop takes its snapshot, each exactly once
+//@ func (s *Server) Stop
+//@   ghost endCalls mathint = 0
+//@   ghost snapshotLen mathint = 0 - 1
+//@   ensures endCalls == snapshotLen
+
+//@ loop Server.Stop#1
+//@   invariant endCalls == ridx
